@@ -83,8 +83,9 @@ AnchorSeq(no, cnt) == IF cnt = 0 THEN <<>>
 Anchors(best) == AnchorSeq(best, MaxAnchors)
 LastOf(s) == s[Len(s)]
 
-\* chain/chainhandle.go:findAncestor on the remote node: the first (= highest) anchor on its main chain, -1 = none
-RemoteAncestor(as) == LET I == {i \in 1..Len(as) : as[i] <= LCommon} IN IF I = {} THEN 0 - 1 ELSE as[Min(I)]
+\* chain/chainhandle.go:findAncestor on the remote node: the first (= highest) anchor on its main chain, -1 = none.
+\* The anchors are blocks of the local main chain as it was when they were taken (c = highest shared block then).
+RemoteAncestor(as, c) == LET I == {i \in 1..Len(as) : as[i] <= c} IN IF I = {} THEN 0 - 1 ELSE as[Min(I)]
 
 \* ------------------------------------------------------------------ records
 Req(k, a, b, c) == [k |-> k, a |-> a, b |-> b, c |-> c, d |-> 0]
@@ -99,7 +100,8 @@ Self(m, who, v) == [m |-> m, sq |-> seq, who |-> who, v |-> v]
 
 Task(s, c, r) == [s |-> s, c |-> c, r |-> r]
 NoCur == [s |-> 0, c |-> 0, i |-> 0]
-NoFd  == [st |-> "idle", last |-> 0, lo |-> 0, hi |-> 0, mid |-> 0, lm |-> 0 - 1, full |-> FALSE, c0 |-> 0]
+NoFd  == [st |-> "idle", last |-> 0, lo |-> 0, hi |-> 0, mid |-> 0, lm |-> 0 - 1, full |-> FALSE, c0 |-> 0, ab |-> 0]
+\* c0: highest shared block when the session started; ab: local best when the anchors were taken
 NoFetch == [hfSt |-> "none", hfLast |-> 0, hfCnt |-> 0, hfSet |-> <<0, 0>>, hfTO |-> FALSE,
             pend |-> <<>>, retry |-> <<>>, runq |-> <<>>, free |-> <<>>, fail |-> [p \in Peers |-> 0], bad |-> {},
             got |-> FALSE, bfAlive |-> FALSE, bfBuf |-> 0,
@@ -254,10 +256,10 @@ Init ==
 \* binarySearch loop head: next request or the result
 FinderSearch(lo, hi, lm, last, c0) ==
   IF lo <= hi
-    THEN /\ fd' = [st |-> "full", last |-> last, lo |-> lo, hi |-> hi, mid |-> (lo + hi) \div 2, lm |-> lm, full |-> TRUE, c0 |-> c0]
+    THEN /\ fd' = [st |-> "full", last |-> last, lo |-> lo, hi |-> hi, mid |-> (lo + hi) \div 2, lm |-> lm, full |-> TRUE, c0 |-> c0, ab |-> fd.ab]
          /\ reqs' = (reqs \ {r \in reqs : r.k \in {"anc", "hbn"}}) \cup {Req("hbn", (lo + hi) \div 2, 0, 0)}
          /\ selfq' = selfq
-    ELSE /\ fd' = [st |-> "done", last |-> last, lo |-> lo, hi |-> hi, mid |-> 0, lm |-> lm, full |-> TRUE, c0 |-> c0]
+    ELSE /\ fd' = [st |-> "done", last |-> last, lo |-> lo, hi |-> hi, mid |-> 0, lm |-> lm, full |-> TRUE, c0 |-> c0, ab |-> fd.ab]
          /\ reqs' = reqs \ {r \in reqs : r.k \in {"anc", "hbn"}}
          /\ selfq' = Append(selfq, Self("FinderResult", "Finder", lm))
 
@@ -273,9 +275,9 @@ SyncStart(t) ==
   /\ f' = NoFetch
   /\ IF ch.full
        THEN \* useFullScanOnly: LastAnchor = BestNo + 1, straight to fullscan
-            /\ fd' = [st |-> "full", last |-> LBest + 1, lo |-> 0, hi |-> LBest, mid |-> LBest \div 2, lm |-> 0 - 1, full |-> TRUE, c0 |-> LCommon]
+            /\ fd' = [st |-> "full", last |-> LBest + 1, lo |-> 0, hi |-> LBest, mid |-> LBest \div 2, lm |-> 0 - 1, full |-> TRUE, c0 |-> LCommon, ab |-> LBest]
             /\ reqs' = {Req("hbn", LBest \div 2, 0, 0)}
-       ELSE /\ fd' = [NoFd EXCEPT !.st = "light", !.last = LastOf(Anchors(LBest)), !.c0 = LCommon]
+       ELSE /\ fd' = [NoFd EXCEPT !.st = "light", !.last = LastOf(Anchors(LBest)), !.c0 = LCommon, !.ab = LBest]
             /\ reqs' = {Req("anc", 0, 0, 0)}
   /\ UNCHANGED <<ch, rstored, selfq, stale, notif, outcomeOK, faults, stops, blocked>>
   /\ lastAct' = [name |-> "SyncStart", t |-> t]
@@ -290,7 +292,7 @@ SyncStartIgnored ==
 \*                            "nil" peer failure reported as "no ancestor", "low" an answer below the last anchor
 AncestorRsp(kind) ==
   /\ running /\ ~blocked /\ Req("anc", 0, 0, 0) \in reqs
-  /\ LET a == RemoteAncestor(Anchors(LBest)) IN
+  /\ LET a == RemoteAncestor(Anchors(fd.ab), fd.c0) IN
      /\ kind = "nil" => a >= 0
      /\ kind = "low" => fd.last > 0
      /\ kind # "ok" => faults < MaxFaults
